@@ -1346,11 +1346,15 @@ func (seq *Sequence) Release() error {
 }
 
 func (seq *Sequence) updateLease() error {
-	return seq.db.Update(func(txn *Txn) error {
+	// The new lease must only take effect once its transaction has committed: Update may fail
+	// (e.g. with ErrConflict when another Sequence object leases concurrently), and a caller
+	// retrying Next must not be served from a lease that was never stored.
+	var next, lease uint64
+	err := seq.db.Update(func(txn *Txn) error {
 		item, err := txn.Get(seq.key)
 		switch {
 		case err == ErrKeyNotFound:
-			seq.next = 0
+			next = 0
 		case err != nil:
 			return err
 		default:
@@ -1361,19 +1365,23 @@ func (seq *Sequence) updateLease() error {
 			}); err != nil {
 				return err
 			}
-			seq.next = num
+			next = num
 		}
 
-		lease := seq.next + seq.bandwidth
+		lease = next + seq.bandwidth
 		var buf [8]byte
 		binary.BigEndian.PutUint64(buf[:], lease)
 		if err = txn.SetEntry(NewEntry(seq.key, buf[:])); err != nil {
 			return err
 		}
-		seq.leased = lease
 		y.VerifPoint("seq.leased")
 		return nil
 	})
+	if err != nil {
+		return err
+	}
+	seq.next, seq.leased = next, lease
+	return nil
 }
 
 // GetSequence would initiate a new sequence object, generating it from the stored lease, if
